@@ -457,7 +457,7 @@ package data
 //@   requires vals.id != loc.id && vals.id != nd.OffsetStep.id && vals.id != nd.Offset.id && vals.id != nd.Step.id && vals.id != nd.Dims.id && vals.id != nd.OriginalDims.id
 //@   requires forall(j, 0, len(vals), 0 <= runaddr(nd.Start + idot(loc, nd.OffsetStep, len(loc)), j, step, nd.OffsetStep[dim]) && runaddr(nd.Start + idot(loc, nd.OffsetStep, len(loc)), j, step, nd.OffsetStep[dim]) < len(nd.Impl))
 //@   assigns nd.Impl[*], loc[*]
-//@   callsite copy [C02.apply-contiguous-run] implies(len(vals) > 1, step == 1 && nd.OffsetStep[dim] == 1)
+//@   callsite copy [C02.apply-contiguous-run,C01.apply-contiguous-run] implies(len(vals) > 1, step == 1 && nd.OffsetStep[dim] == 1)
 //@   ensures [C01.apply-footprint] forall(j, 0, len(vals), nd.Impl[runaddr(old(nd.Start + idot(loc, nd.OffsetStep, len(loc))), j, step, nd.OffsetStep[dim])] == vals[j])
 //@   ensures [C01.apply-frame] runaddr(old(nd.Start + idot(loc, nd.OffsetStep, len(loc))), 0, step, nd.OffsetStep[dim]) == old(nd.Start + idot(loc, nd.OffsetStep, len(loc))) && forall(p, 0, len(nd.Impl), implies(!exists(j, 0, len(vals), p == runaddr(old(nd.Start + idot(loc, nd.OffsetStep, len(loc))), j, step, nd.OffsetStep[dim])) && !(step*nd.OffsetStep[dim] == 1 && old(nd.Start + idot(loc, nd.OffsetStep, len(loc))) <= p && p < old(nd.Start + idot(loc, nd.OffsetStep, len(loc))) + len(vals)), nd.Impl[p] == old(nd.Impl[p])))
 //@   ensures [C01.apply-loc-restored] forall(k, 0, len(loc), loc[k] == old(loc[k]))
@@ -554,8 +554,8 @@ package data
 //@   loop 0 instantiate C02.lemma-successor-1(pre(seq(idx)), idx, vals.shape, pos, 0)
 //@   loop 0 instantiate C02.lemma-successor-2(pre(seq(idx)), idx, vals.shape, pos, 0)
 //@   loop 0 instantiate C02.lemma-successor-3(pre(seq(idx)), idx, vals.shape, pos, 0)
-//@   callsite copy [C01.applyslice-fast-path-target] arg0.id == nd.Impl.id && arg0.off == old(nd.Start + idot(loc, nd.OffsetStep, len(loc))) && len(arg0) == iprod(vals.shape, vals.rank) && len(arg1) == iprod(vals.shape, vals.rank) && arg1.id != nd.Impl.id && forall(j, 0, iprod(vals.shape, vals.rank), arg1[j] == vals.at(j))
-//@   callsite copy [C01.applyslice-fast-path-addresses] forall(j, 0, iprod(vals.shape, vals.rank), sladdr(vals.shape, nd.OffsetStep, step, ite(step == nil, 1, 0), j, vals.rank, vals.rank) == j)
+//@   callsite copy [C01.applyslice-fast-path-target,C02.applyslice-fast-path-target] arg0.id == nd.Impl.id && arg0.off == old(nd.Start + idot(loc, nd.OffsetStep, len(loc))) && len(arg0) == iprod(vals.shape, vals.rank) && len(arg1) == iprod(vals.shape, vals.rank) && arg1.id != nd.Impl.id && forall(j, 0, iprod(vals.shape, vals.rank), arg1[j] == vals.at(j))
+//@   callsite copy [C01.applyslice-fast-path-addresses,C02.applyslice-fast-path-addresses] forall(j, 0, iprod(vals.shape, vals.rank), sladdr(vals.shape, nd.OffsetStep, step, ite(step == nil, 1, 0), j, vals.rank, vals.rank) == j)
 //@   requires vals != nil && 1 <= vals.rank && vals.rank <= 3 && forall(k, 0, vals.rank, vals.shape[k] >= 1)
 //@   requires len(nd.OffsetStep) == vals.rank && len(nd.Offset) == vals.rank && len(nd.Step) == vals.rank && len(loc) == vals.rank && (step == nil || len(step) >= vals.rank)
 //@   requires forall(k, 0, len(nd.OffsetStep), nd.OffsetStep[k] == nd.Offset[k]*nd.Step[k] && nd.Step[k] >= 1 && nd.Offset[k] == pfrom(nd.OriginalDims, k+1, len(nd.OffsetStep)))
@@ -567,8 +567,8 @@ package data
 //@   requires forall(j1, 0, iprod(vals.shape, vals.rank), forall(j2, 0, iprod(vals.shape, vals.rank), implies(j1 != j2, nd.Start + idot(loc, nd.OffsetStep, len(loc)) + sladdr(vals.shape, nd.OffsetStep, step, ite(step == nil, 1, 0), j1, vals.rank, vals.rank) != nd.Start + idot(loc, nd.OffsetStep, len(loc)) + sladdr(vals.shape, nd.OffsetStep, step, ite(step == nil, 1, 0), j2, vals.rank, vals.rank))))
 //@   assigns nd.Impl[*]
 //@   ensures [C01.applyslice-footprint,C02.applyslice-footprint] forall(j, 0, iprod(vals.shape, vals.rank), nd.Impl[old(nd.Start + idot(loc, nd.OffsetStep, len(loc))) + sladdr(vals.shape, nd.OffsetStep, step, ite(step == nil, 1, 0), j, vals.rank, vals.rank)] == vals.at(j))
-//@   loop 0 prestep [C01.applyslice-step-value] nd.Impl[old(nd.Start + idot(loc, nd.OffsetStep, len(loc))) + sladdr(vals.shape, nd.OffsetStep, step, ite(step == nil, 1, 0), pre(pos), vals.rank, vals.rank)] == vals.at(pre(pos))
-//@   loop 0 prestep [C01.applyslice-step-frame] forall(p, 0, len(nd.Impl), implies(p != old(nd.Start + idot(loc, nd.OffsetStep, len(loc))) + sladdr(vals.shape, nd.OffsetStep, step, ite(step == nil, 1, 0), pre(pos), vals.rank, vals.rank), nd.Impl[p] == pre(nd.Impl[p])))
+//@   loop 0 prestep [C01.applyslice-step-value,C02.applyslice-step-value] nd.Impl[old(nd.Start + idot(loc, nd.OffsetStep, len(loc))) + sladdr(vals.shape, nd.OffsetStep, step, ite(step == nil, 1, 0), pre(pos), vals.rank, vals.rank)] == vals.at(pre(pos))
+//@   loop 0 prestep [C01.applyslice-step-frame,C02.applyslice-step-frame] forall(p, 0, len(nd.Impl), implies(p != old(nd.Start + idot(loc, nd.OffsetStep, len(loc))) + sladdr(vals.shape, nd.OffsetStep, step, ite(step == nil, 1, 0), pre(pos), vals.rank, vals.rank), nd.Impl[p] == pre(nd.Impl[p])))
 //@   loop 0 invariant 0 <= pos && pos <= size && size == iprod(vals.shape, vals.rank) && len(idx) == vals.rank && len(shape) == vals.rank
 //@   loop 0 invariant forall(k, 0, vals.rank, shape[k] == vals.shape[k] && idx[k] == rmc(vals.shape, pos, vals.rank, k))
 //@   loop 0 invariant as(slice, nd{t}).Start == old(nd.Start + idot(loc, nd.OffsetStep, len(loc))) && len(as(slice, nd{t}).OffsetStep) == vals.rank && as(slice, nd{t}).Impl == nd.Impl
